@@ -248,6 +248,10 @@ def dictionary_inputs(ctx):
 
 
 def run(ctx):
+    # statements that are large in one dimension (long lists, chains, many tokens, deep nesting, many statements): the property has no size bound
+    for s in [s for s in gen.scale_texts(ctx.rng) if len(s) < 5000]:
+        oracle(ctx, s)
+    ctx.count('scale texts')
     ins = [c['input'] for c in streams.corpus('C03')] + C02.inputs(ctx, ctx.n(2000, 40000), ctx.n(400, 8000))
     extra = list(deep_inputs(ctx)) + list(dictionary_inputs(ctx)) + list(C02.boundary_sweep(2))
     ctx.count('deep/dictionary/boundary inputs', len(extra))
